@@ -30,11 +30,11 @@ def generate(streams, tier):
         bigtab = r.random() < (0.08 if not big else 0.15)
         world = W.gen_bn(streams, max_n=6 if not bigtab else 7, min_n=1, max_card=4, max_parents=5 if bigtab else 4, max_joint=10**9,
                          label_mode="str", keyword_rate=r.choice([0.0, 0.0, 0.3, 0.8]), tiny_rate=r.choice([0.0, 0.2, 0.6]),
-                         state_modes=[("default", 2), ("str", 3), ("int_sorted", 1), ("int", 1)], max_table=2500)
+                         state_modes=[("default", 2), ("str", 3), ("int_sorted", 1), ("int", 1)], max_table=2500, big_card_rate=0.15)
         config = W.gen_bn_config(streams, world)
         fmts = FORMATS_BN
     else:
-        world = W.gen_mn(streams, max_n=6, min_n=2, max_card=4, max_joint=4096, connected=r.random() < 0.7, label_mode="str", state_named=False)
+        world = W.gen_mn(streams, max_n=6, min_n=2, max_card=4, max_joint=4096, connected=r.random() < 0.7, label_mode="str", state_named=False, big_card_rate=0.4)
         # positive magnitudes over a wide range
         rr = streams.s("values")
         for f in world["factors"]:
